@@ -1,5 +1,6 @@
 pub mod c01;
 pub mod c02;
+pub mod c06;
 pub mod c08;
 pub mod c12;
 pub mod c14;
@@ -8,7 +9,7 @@ pub mod c16;
 
 use crate::core::run::{Check, Tier};
 
-pub const ALL: &[&str] = &["C01", "C02", "C08", "C12", "C14", "C15", "C16"];
+pub const ALL: &[&str] = &["C01", "C02", "C06", "C08", "C12", "C14", "C15", "C16"];
 
 pub fn build(id: &str, tier: Tier) -> Option<Check<'static>> {
     Some(match id {
@@ -17,6 +18,7 @@ pub fn build(id: &str, tier: Tier) -> Option<Check<'static>> {
         "C15" => c15::build(tier),
         "C12" => c12::build(tier),
         "C08" => c08::build(tier),
+        "C06" => c06::build(tier),
         "C02" => c02::build(tier),
         "C14" => c14::build(tier),
         _ => return None,
